@@ -390,6 +390,21 @@ func table(in json.RawMessage, res *vh.Result) error {
 		}
 		res.Done(1, 1)
 	}
+	// the real Protobuf data encoder at every varint boundary (the handler adds nothing that depends on the
+	// length; 2 MiB messages through HTTP would only test the 1 s write deadline of the handler)
+	for _, n := range []int{0, 1, 127, 128, 129, 16383, 16384, 16385, 2097151, 2097152, 2097153} {
+		a, b := bytes.Repeat([]byte{'\n'}, n), bytes.Repeat([]byte{0x80}, n)
+		enc := protocol.GetDataEncoder(protocol.TypeProtobuf)
+		_ = enc.Encode(a)
+		_ = enc.Encode(nil)
+		_ = enc.Encode(b)
+		wire := enc.Finish()
+		protocol.PutDataEncoder(protocol.TypeProtobuf, enc)
+		if !sameRecs(parseAll("pb", wire), [][]byte{a, {}, b}) {
+			res.Violate("C32", "pb:data-encoder", fmt.Sprintf("protocol.ProtobufDataEncoder: messages of length %d, 0, %d do not decode back", n, n), n)
+		}
+		res.Count("varint_boundaries", 1)
+	}
 	return nil
 }
 
@@ -612,8 +627,8 @@ func (s *stream) count() (int, bool) {
 }
 
 const (
-	writeWait   = 5 * time.Second // for the server to hand a message to the transport
-	deliverWait = 5 * time.Second // for a message handed to the transport to show up at the client, connection idle
+	writeWait   = 15 * time.Second // for the server to hand a message to the transport
+	deliverWait = 10 * time.Second // for a message handed to the transport to show up at the client, connection idle
 )
 
 type outcome struct {
@@ -720,6 +735,9 @@ func (w *world) runScenario(sc *scenario, res *vh.Result, in *replayIn) (out out
 	// wait until everything handed to the transport so far has arrived (the connection is otherwise idle)
 	heldBack := false
 	waitDelivered := func(what string) bool {
+		if heldBack {
+			return false // already reported for this connection: do not wait again
+		}
 		deadline := time.After(deliverWait)
 		for {
 			n, eof := st.count()
@@ -1365,7 +1383,7 @@ func buildScenarios(thorough bool) []*scenario {
 	// 127/128 and 16383/16384 (the envelope adds a constant number of bytes; a window covers it)
 	windows := [][2]int{{100, 132}, {16340, 16390}}
 	if thorough {
-		windows = [][2]int{{90, 140}, {16300, 16400}, {2097100, 2097160}}
+		windows = [][2]int{{90, 140}, {16300, 16400}}
 	}
 	for _, wdw := range windows {
 		sc := &scenario{ID: id(), Transport: "hs-pb", Class: fmt.Sprintf("length-%d-%d", wdw[0], wdw[1]), Field: "payload", Channel: "ch"}
